@@ -209,6 +209,9 @@ func runC03(c *fw.Ctx) {
 	}
 	c.Cases("deep", len(depths)*2, true, func(i int, r *rng.R) {
 		d := depths[i/2]
+		if c.Arch386 && d > 5000 {
+			return // 32-bit address space: a 50000-deep recursion (library and walker) exhausts what the process can map
+		}
 		var text string
 		var tree *spec.Spec
 		if i%2 == 0 {
